@@ -259,6 +259,20 @@ func VerifC15PostGet(h *verifh.H) {
 	if err == nil {
 		h.Assert(ds.StoreEntities(upd) == nil, "a later valid update of the entity is accepted :: after doc="+doc)
 	}
+	if h.Choice("restart", 2) == 1 {
+		// after a restart the hub serves the entity under a context that still denotes the posted URIs
+		hub2 := hub.Restart()
+		res2, err := hub2.Dsm.GetDataset("d").GetEntities("", -1)
+		h.Assert(err == nil && len(res2.Entities) == 1, "listing after a restart")
+		if err == nil && len(res2.Entities) == 1 {
+			c2, _ := jsonMarshal(res2.Context)
+			e2, _ := jsonMarshal(res2.Entities[0])
+			pr := strings.SplitN(res2.Entities[0].ID, ":", 2)[0]
+			h.Assert(res2.Context.Namespaces[pr] == "http://example.com/x/", "after a restart the context served with the entity maps its prefix to the posted namespace :: prefix="+pr+" context="+string(c2))
+			perr := NewEntityStreamParser(hub2.Store).ParseStream(strings.NewReader("["+string(c2)+","+string(e2)+"]"), func(*Entity) error { return nil })
+			h.Assert(perr == nil, "after a restart the serialised collection parses back :: body="+string(e2)+" context="+string(c2))
+		}
+	}
 	h.Observe("body", len(body))
 }
 
